@@ -773,3 +773,121 @@ Proof.
   split; [apply hsort_perm|]. split; [intro n; apply hsort_filter|].
   split; intro n; [apply hget_all_hsort | apply hget_hsort].
 Qed.
+
+(* ------------------------------------------------------------------------------------------------ *)
+(* 7. cookies                                                                                       *)
+(* ------------------------------------------------------------------------------------------------ *)
+Lemma filter_map_map {A B C} (f : B -> option C) (g : A -> B) l :
+  filter_map f (map g l) = filter_map (fun x => f (g x)) l.
+Proof. induction l as [|x l IH]; cbn [map filter_map]; [reflexivity|]. now rewrite IH. Qed.
+
+Lemma filter_map_ext_in {A B} (f g : A -> option B) l :
+  (forall x, In x l -> f x = g x) -> filter_map f l = filter_map g l.
+Proof.
+  induction l as [|x l IH]; intro H; cbn [filter_map]; [reflexivity|].
+  rewrite (H x (or_introl eq_refl)), IH; [reflexivity|]. intros y Hy. apply H. now right.
+Qed.
+
+Definition cookie_piece (c : bytes) : option (bytes * bytes) :=
+  match split_once 61 c with Some (k, x) => Some (trim k, trim x) | None => None end.
+
+Lemma cookie_piece_item i : citem_wf i = true -> cookie_piece (citem_text i) = citem_denote i.
+Proof.
+  unfold cookie_piece. destruct i as [k x|j]; cbn [citem_wf citem_text citem_denote]; intro H.
+  - apply andb_true_iff in H as [H _]. apply andb_true_iff in H as [_ H]. fold EQUALS. now rewrite split_once_app.
+  - apply andb_true_iff in H as [_ H]. fold EQUALS. now rewrite split_once_none.
+Qed.
+
+Lemma cookies_spec hs items :
+  hget (HKnown H_Cookie) hs = Some (cookie_value items) -> forallb citem_wf items = true ->
+  cookies_of hs = filter_map citem_denote items.
+Proof.
+  intros Hg Hw. unfold cookies_of. rewrite Hg. fold cookie_piece. unfold cookie_value. fold SEMI.
+  destruct items as [|i items]; [reflexivity|].
+  rewrite split_on_join.
+  - rewrite filter_map_map. apply filter_map_ext_in. intros x Hx. apply cookie_piece_item.
+    exact (proj1 (forallb_forall _ _) Hw x Hx).
+  - discriminate.
+  - apply Forall_forall. intros t Ht. apply in_map_iff in Ht as (x & <- & Hx).
+    pose proof (proj1 (forallb_forall _ _) Hw x Hx) as W. destruct x as [k v|j]; cbn [citem_wf citem_text] in *.
+    + apply andb_true_iff in W as [W W3]. apply andb_true_iff in W as [W1 _]. rewrite nob_app, nob_cons, W1, W3. reflexivity.
+    + now apply andb_true_iff in W as [W _].
+Qed.
+
+Lemma cookies_none hs : hget (HKnown H_Cookie) hs = None -> cookies_of hs = [].
+Proof. intro H. unfold cookies_of. now rewrite H. Qed.
+
+Definition std_items (kvs : list (bytes * bytes)) : list citem :=
+  match kvs with
+  | [] => []
+  | kv :: t => CPair (fst kv) (snd kv) :: map (fun kv => CPair (SP :: fst kv) (snd kv)) t
+  end.
+
+Lemma cookie_std_items kvs : cookie_std kvs = cookie_value (std_items kvs).
+Proof.
+  unfold cookie_value. destruct kvs as [|[k v] t]; [reflexivity|]. cbn [std_items fst snd map].
+  revert k v. induction t as [|[k' v'] t IH]; intros k v; [reflexivity|].
+  cbn [map fst snd]. rewrite join_byte_cons by discriminate.
+  change (cookie_std ((k, v) :: (k', v') :: t)) with (k ++ EQUALS :: v ++ SEMI :: SP :: cookie_std ((k', v') :: t)).
+  rewrite IH. cbn [citem_text]. rewrite <- app_assoc. cbn [app]. do 3 f_equal.
+  destruct t as [|[k2 v2] t]; reflexivity.
+Qed.
+
+Lemma cookies_std hs kvs :
+  hget (HKnown H_Cookie) hs = Some (cookie_std kvs) -> Forall cookie_kv_wf kvs -> cookies_of hs = kvs.
+Proof.
+  intros Hg Hw. rewrite cookie_std_items in Hg. rewrite (cookies_spec hs _ Hg).
+  - destruct kvs as [|[k v] t]; [reflexivity|]. inversion Hw as [|? ? (K1 & K2 & _) Hw']; subst.
+    cbn [std_items filter_map citem_denote fst snd] in *. rewrite K1, K2. f_equal.
+    clear Hg Hw K1 K2. induction Hw' as [|[k' v'] t (K1 & K2 & _) _ IH]; [reflexivity|].
+    cbn [map filter_map citem_denote fst snd] in *. rewrite trim_ws1_cons by reflexivity. now rewrite K1, K2, IH.
+  - apply forallb_forall. intros i Hi. destruct kvs as [|[k v] t]; [contradiction|].
+    inversion Hw as [|? ? (_ & _ & K3 & K4 & K5) Hw']; subst. cbn [std_items fst snd] in Hi. destruct Hi as [<-|Hi].
+    + cbn [citem_wf fst snd] in *. now rewrite K3, K4, K5.
+    + apply in_map_iff in Hi as ([k' v'] & <- & Hin). apply (proj1 (Forall_forall _ _) Hw') in Hin as (_ & _ & J3 & J4 & J5).
+      cbn [citem_wf fst snd] in *. rewrite !nob_cons, J3, J4, J5. reflexivity.
+Qed.
+
+(* ------------------------------------------------------------------------------------------------ *)
+(* 8. client and forwarded addresses                                                                *)
+(* ------------------------------------------------------------------------------------------------ *)
+Definition peer_only (p : peer) : address := {| a_origin := p_ip p; a_proxies := []; a_port := p_port p |}.
+
+Lemma address_no_header ipp hs p : hget XFF hs = None -> address_of ipp hs p = peer_only p.
+Proof. intro H. unfold address_of. now rewrite H. Qed.
+
+Lemma xff_parsed (ipp : bytes -> option bytes) xs : xs <> [] -> Forall xe_wf xs ->
+  filter_map (fun s => ipp (trim s)) (split_on 44 (xff_value xs)) = filter_map (fun x => ipp (xe_text x)) xs.
+Proof.
+  intros Hne Hw. unfold xff_value. fold COMMA. rewrite split_on_join.
+  - rewrite filter_map_map. apply filter_map_ext_in. intros x Hx.
+    apply (proj1 (Forall_forall _ _) Hw) in Hx as [_ Hx]. now rewrite Hx.
+  - destruct xs; [contradiction | discriminate].
+  - apply Forall_forall. intros t Ht. apply in_map_iff in Ht as (x & <- & Hx).
+    now apply (proj1 (Forall_forall _ _) Hw) in Hx as [Hx _].
+Qed.
+
+Lemma address_spec ipp hs p xs :
+  hget XFF hs = Some (xff_value xs) -> xs <> [] -> Forall xe_wf xs ->
+  (filter_map (fun x => ipp (xe_text x)) xs = [] -> address_of ipp hs p = peer_only p) /\
+  (forall init last, filter_map (fun x => ipp (xe_text x)) xs = init ++ [last] ->
+     address_of ipp hs p = {| a_origin := last; a_proxies := init ++ [p_ip p]; a_port := p_port p |}).
+Proof.
+  intros Hg Hne Hw. unfold address_of. rewrite Hg, (xff_parsed ipp xs Hne Hw). split.
+  - intros ->. reflexivity.
+  - intros init last ->. rewrite rev_app_distr. cbn [rev app]. now rewrite rev_involutive.
+Qed.
+
+Lemma xe_wfb_wf x : xe_wfb x = true -> xe_wf x.
+Proof.
+  unfold xe_wfb, xe_wf, xe_raw. intro H.
+  apply andb_true_iff in H as [H H5]. apply andb_true_iff in H as [H H4]. apply andb_true_iff in H as [H H3].
+  apply andb_true_iff in H as [H1 H2]. apply beq_eq in H4, H5.
+  destruct (ows_props _ H1) as (A1 & _ & _). destruct (ows_props _ H2) as (B1 & _ & _). split.
+  - assert (C : forall l, forallb is_ows l = true -> nob COMMA l = true).
+    { induction l as [|b l IH]; [reflexivity|]. cbn [forallb]. intro X. apply andb_true_iff in X as [Xb X].
+      rewrite nob_cons, (IH X). unfold is_ows, SP, HTAB in Xb.
+      apply orb_true_iff in Xb as [Xb|Xb]; apply N.eqb_eq in Xb; subst; reflexivity. }
+    now rewrite !nob_app, (C _ H1), (C _ H2), H3.
+  - now apply trim_pad.
+Qed.
